@@ -38,6 +38,16 @@ class PackerVal:
     def size(self) -> int:
         return self.width // 8
 
+    @property
+    def fmt(self) -> str:
+        """Format of the wider standard struct the packer derives from (model of IntegerN/UnsignedN.__init__,
+        whose threshold chain is verified by C04.R3)."""
+        letters = "bhlq" if self.signed else "BHLQ"
+        for bits, l in zip((8, 16, 32, 64), letters):
+            if self.width <= bits:
+                return l if bits == 8 else "<" + l
+        return "?"
+
 
 @dataclass
 class Scope:
@@ -159,7 +169,7 @@ class Folder:
             return ("ext", f"{obj}.{expr.attr}")
         if kind == "val" and isinstance(obj, (StructVal, PackerVal)) and expr.attr == "size":
             return ("val", obj.size)
-        if kind == "val" and isinstance(obj, StructVal) and expr.attr == "format":
+        if kind == "val" and isinstance(obj, (StructVal, PackerVal)) and expr.attr == "format":
             return ("val", obj.fmt)
         raise Unfoldable("attribute of value")
 
@@ -201,7 +211,16 @@ class Folder:
                 return obj
             raise Unfoldable(f"{expr.id} is a {kind}")
         if isinstance(expr, ast.Attribute):
-            kind, obj = self._lookup_attr(expr, scope)[:2]
+            try:
+                kind, obj = self._lookup_attr(expr, scope)[:2]
+            except Unfoldable:
+                if isinstance(expr.value, (ast.Subscript, ast.Call)):
+                    base = self.fold(expr.value, scope)
+                    if isinstance(base, (StructVal, PackerVal)) and expr.attr == "size":
+                        return base.size
+                    if isinstance(base, (StructVal, PackerVal)) and expr.attr == "format":
+                        return base.fmt
+                raise
             if kind == "val":
                 return obj
             raise Unfoldable("attribute is not a value")
@@ -311,10 +330,11 @@ class Folder:
             return {"list": list, "tuple": tuple, "set": frozenset, "frozenset": frozenset}[fn.id](v)
         if isinstance(fn, ast.Name) and fn.id == "len" and len(expr.args) == 1:
             return len(self.fold(expr.args[0], scope))
-        if isinstance(fn, ast.Name) and fn.id in ("min", "max", "abs", "int", "bool") and expr.args and not expr.keywords:
+        if isinstance(fn, ast.Name) and fn.id in ("min", "max", "abs", "int", "bool", "all", "any", "sum", "sorted", "hex") and expr.args and not expr.keywords:
             args = [self.fold(a, scope) for a in expr.args]
             try:
-                return {"min": min, "max": max, "abs": abs, "int": int, "bool": bool}[fn.id](*args)
+                return {"min": min, "max": max, "abs": abs, "int": int, "bool": bool, "all": all, "any": any, "sum": sum,
+                        "sorted": sorted, "hex": hex}[fn.id](*args)
             except Exception as e:  # noqa
                 raise Unfoldable(str(e))
         if isinstance(fn, ast.Attribute) and fn.attr in ("items", "keys", "values") and not expr.args:
